@@ -327,6 +327,8 @@ func (group *Group) delCustomizePubSession(sessionCtx ICustomizePubSessionContex
 		return
 	}
 
+	// 业务方有可能在删除后依然持有ctx并调用Feed，标记为已销毁，使得后续的数据不再进入group
+	group.customizePubSession.Dispose()
 	group.delIn()
 }
 
